@@ -1,2 +1,4 @@
 //! Shared realisers for the STM-level harness binaries.
 pub mod stmkit;
+pub mod certkit;
+pub mod certrand;
